@@ -1,7 +1,7 @@
 """C15 - a misbehaving handshake peer gets an error, never completion, a crash or a hang (gmtls)."""
 ID = "C15"
 PROPS = "Props/C15.v"
-GEN = ["hstables"]      # suite tables, default suite lists, version and size constants of gmtls
+GEN = ["hstables"]      # suite tables, default suite lists, version/size constants, message/alert/ClientAuth numbers, the reads of every flight
 LEGS = [{"driver": "c15", "runner": ("hs", "Extract/ExtractHS.v", "Hs_model"), "timeout": 3000}]
 
 TECHNIQUE = ("Coq proofs over message-level state machines of the gmtls client and server handshakes (GMSSL-only, auto-switch, TLS) "
@@ -10,22 +10,26 @@ TECHNIQUE = ("Coq proofs over message-level state machines of the gmtls client a
 LEVEL_TEXT = ("Theorems in Coq (Props/C15.v): for every sequence of any length over {every handshake message type with arbitrary fields, "
               "rejected bodies, unknown types, over-long messages, ChangeCipherSpec, alerts, application data, bad records, end of stream} "
               "delivered to the server model in each mode and to the client models (GMSSL, TLS) the outcome is never Panic or Hang and end of stream is an error; "
-              "completion happens only on the honest flights of the GMSSL client, the TLS client and the servers (stated declaratively with every check, full handshakes and resumptions); the ClientHello version gate is swept over all 65536 values; the suite tables and protocol constants of the models are re-proved equal to the ones regenerated from the source; "
-              "eccKeyAgreementGM length logic, certificateRequestMsgGM.unmarshal and readHandshake reassembly are total on all byte strings. "
+              "completion happens only on the honest flights of the GMSSL client, the TLS client and the servers (stated declaratively with every check, full handshakes and resumptions); the ClientHello version gate is swept over all 65536 values; the suite tables and protocol constants of the models are re-proved equal to the ones regenerated from the source, and so are the handshake message numbers (against readHandshake's dispatch switch), the alert numbers the models interpret, "
+              "every numeric ClientAuth test of the server model (against the AST's tests of Config.ClientAuth) and the ORDER OF READS of every flight: what a completing run of a model consumed is, type by type, the sequence of msg.(*xxxMsg) assertions and ChangeCipherSpec reads extracted from serverHandshake / serverHandshakeGM / serverHandshakeAutoSwitch / clientHandshakeState(GM).handshake (mandatory and optional reads, full and resumption branch); "
+              "eccKeyAgreementGM length logic, certificateRequestMsgGM.unmarshal and readHandshake reassembly are total on all byte strings; "
+              "byte-level models (every index/slice a checked access) of the handshake_messages.go parsers - clientHelloMsg.unmarshal with its extension loop, serverHelloMsg, certificateMsg, "
+              "serverKeyExchangeMsg, clientKeyExchangeMsg, certificateRequestMsg, certificateVerifyMsg, finishedMsg, newSessionTicketMsg, certificateStatusMsg, nextProtoMsg - never Panic or Hang on any byte string, "
+              "and the ClientHello extension block is accepted iff it satisfies the declarative condition ext_block_ok (else return false). "
               "(The panic of the TLS client on an RSA key exchange against a non-RSA certificate, found by this check, was repaired in /repo 4334fea; its scripts stay in corpus/c15.) "
               "The same scripts (about 45 000 quick) are played by a scripted peer against real endpoints under recover() and a deadline and outcome classes compared.")
 LEVEL_NOTE = ("Trusted: Coq kernel, extraction (ExtrOcamlBasic only), the hand-written models, the Go driver's abstraction of the bytes it sends into model tokens "
-              "(derived by running gmtls's own unmarshal on them), generator coverage. Modelled-not-verified: the stdlib-derived parsers of handshake_messages.go "
-              "(well-formed => fields, else reject), x509 chain verification (a predicate per certificate), record protection after ChangeCipherSpec, "
+              "(derived by running gmtls's own unmarshal on them), generator coverage; the byte-level parser models of HSMsgParsers.v are tied to handshake_messages.go by the PM cases "
+              "(same bytes to the real unmarshal through a hook, every parsed field compared) - the state machines still take the parsers' result as an abstract token. Modelled-not-verified: x509 chain verification (a predicate per certificate), record protection after ChangeCipherSpec, "
               "sm2/asn1 decoding behind the length logic.")
 TRUSTED_BASE = [
-    "models coq/HS/HSModel.v, HSParsers.v written by hand from gmtls/*.go; tied by the correspondence run of this check",
+    "models coq/HS/HSModel.v, HSParsers.v, HSMsgParsers.v written by hand from gmtls/*.go; tied by the correspondence run of this check",
     "extraction: ExtrOcamlBasic only; nat/positive/N stay inductive; OCaml 4.13.1 + dune; runner ocaml/hs/main.ml and ocaml/conv.ml.tmpl",
     "Go driver harness/cmd/c15 (scripted in-memory net.Conn, token abstraction via gmtls's own unmarshal functions) and hook file gmtls/verif_handshake_verif.go",
 ]
 ASSUMPTIONS = [
     "symbolic (perfect) cryptography: signatures, public-key encryption, PRF and hash are free constructors; ECDHE is an ephemeral KEM; RSA decryption failure continues with a random pre-master secret",
-    "handshake_messages.go parsers: well-formed => fields, else reject (IHsMalformed); one handshake message per model input (byte-level reassembly is the separate model read_handshakes)",
+    "in the state machines a handshake message is a token (parsed fields, or IHsMalformed when unmarshal rejects); the byte-level parsers are separate models (HSMsgParsers.v, read_handshakes) proved total and compared field by field, not composed with the state machines inside Coq",
     "chain verification is a predicate per certificate (the ids listed in c_trusted / s_client_trusted)",
     "Config: MinVersion unset, Renegotiation=Never, GetConfigForClient/VerifyPeerCertificate/GetClientCertificate nil, client NextProtos empty, no OCSP staple, first handshake on the connection",
     "record protection after ChangeCipherSpec not modelled (C07): a Finished is accepted iff its verify_data is right",
@@ -34,7 +38,7 @@ RULE = ("seeded generator (VERIF_SEED). S: scripted peer vs real endpoint (roles
         "honest prefix + every single deviation at every position, every truncation and every length/count field perturbation of every message body, "
         "ClientHello/ServerHello versions 0x0000..0x0400 (quick: stride + boundaries) x suite lists, random sequences up to length 12, certificate-kind mixes; "
         "H: real client vs real server for every mode pair x ClientAuth x suites x tickets x resumption x MaxVersion; V: version gate black box; "
-        "R: an otherwise honest scripted peer (genuine key exchange and verify_data through hooks) re-packing its flights into records (every coalescing, Finished in the clear before ChangeCipherSpec, ChangeCipherSpec twice / early / missing) and offering ClientHello versions in the gap 0x0102..0x02ff; per-extension perturbations of ClientHello/ServerHello (every extension type x body lengths 0,1,2,len-1,len+1 x position); PK/PS/PR/PH: byte-level parsers through hooks. Non-trivial: every case except the empty script; distinct = distinct case text")
+        "R: an otherwise honest scripted peer (genuine key exchange and verify_data through hooks) re-packing its flights into records (every coalescing, Finished in the clear before ChangeCipherSpec, ChangeCipherSpec twice / early / missing) and offering ClientHello versions in the gap 0x0102..0x02ff; per-extension perturbations of ClientHello/ServerHello (every extension type x body lengths 0,1,2,len-1,len+1 x position); PK/PS/PR/PH: byte-level parsers through hooks; PM: every handshake message of every S case (all truncations, length-field pokes, the per-extension matrix) plus exhaustive short inputs, structured random ClientHello/ServerHello extension blocks, certificate lists with overrunning entries, both hasSignatureAndHash flags - fed to the real unmarshal of each of 12 message types and to the byte-level model, every parsed field compared. Non-trivial: every case except the empty script; distinct = distinct case text")
 
 STATIC_FINDINGS = ()
 
@@ -72,7 +76,7 @@ def nontrivial(f):
 
 
 def classify(f, io):
-    k = f[0] + (":" + f[2] if f[0] in ("S", "H", "V", "R") else "")
+    k = f[0] + (":" + f[2] if f[0] in ("S", "H", "V", "R", "PM") else "")
     return k + ":" + (io[0] if io else "none")
 
 
